@@ -64,6 +64,19 @@ def showOutcome (f32 : Bool) : Outcome Val → String
 
 def allocBytes : Nat := 1048576
 
+/-- the LibSVM record through the PEG interpreter (`svmLineG`, skipper `space`) -/
+def svmLinePeg (line : List Char) : Option (Val × List (Nat × Val)) :=
+  match SharkVerif.Peg.phraseParse SharkVerif.Peg.svmLineG .space line with
+  | .ok [] evs =>
+    match evs with
+    | .val lab :: rest =>
+      some (lab, (Csv.splitMarks rest [] []).map fun r => ((Csv.labelOf r).toNat, (Csv.valsOf r).headD Val.nan))
+    | _ => none
+  | _ => none
+
+def svmRecordsPeg (bytes : List Char) : Option (List (Val × List (Nat × Val))) :=
+  (splitLines bytes [] []).mapM svmLinePeg
+
 /-- round-trip datasets: the formula shared with harness/c19.cpp (`rtCell`, `rtLabel`) -/
 def rtCell (seed e j : Nat) : Val :=
   let k : Int := ((seed * 7 + e * 3 + j * 5) % 11 : Nat) - 5
@@ -97,6 +110,8 @@ def step (line : String) : String :=
       let f32 := ty == "f32"
       let cfg : Svm.Cfg := { sparse := fmt == "s", cls := lab == "c", dims := dims, bs := bs,
                              allocLimit := allocBytes / (if f32 then 4 else 8) }
+      -- the record reader twice: hand-written lexer and the PEG model of the same grammar must agree
+      if svmRecords bytes != svmRecordsPeg bytes then "model-inconsistency svmLine vs svmLineG" else
       match svmRecords bytes with
       | none => "shark-exception"
       | some recs =>
